@@ -670,7 +670,9 @@ def _example(cube):
 # ---- R20.5 ----------------------------------------------------------------------------------------
 
 PATH_FAMILY = ['out.c', 'out', 'dir/out.c', 'dir/out', 'a.b/out', 'a.b/out.c', 'a.b/c.d/e', './x.y/z.w.c', '/abs/p.q/r', 'rel/../q.r/s.t',
-               'name.with.dots.c', 'd/.hidden', 'v1.2/lib']
+               'name.with.dots.c', 'd/.hidden', 'v1.2/lib',
+               # trailing and doubled separators: dirname() (used for the directory change) ignores them, so the name must, too
+               'gen/m.c/', 'gen//m.c//', '/abs/gen/m.c/', 'gen//m.c']
 
 
 def string_leafs():
@@ -694,7 +696,9 @@ def string_leafs():
         if not isinstance(s_, str):
             raise pe.PEError('strrchr of a non-concrete string')
         i = s_.rfind(chr(args[1] & 0xff))
-        return 0 if i < 0 else Ptr(args[0].c, args[0].k + i)
+        if i < 0:
+            return 0
+        return Ptr(args[0].c, args[0].k + i) if isinstance(args[0], Ptr) else s_[i:]
 
     def strchr(interp, args, node):
         s_ = _cstr(interp, args[0])
